@@ -426,4 +426,7 @@ def child_main(wfd: int, rfd: int, scenario: dict, event, clock, inv_no: int, du
     allthreads = [t.name for t in threading.enumerate() if t.is_alive() and t is not threading.current_thread()]
     RT.rpc("inv_end", outcome=outcome, dex_alive=alive, threads=allthreads, perturb_hits=pert.hits if pert else 0,
            contract_evals=dict(contracts.COUNTS) if contracts else None)
+    if opts.get("linger_s"):
+        # a warm sandbox: the process outlives the invocation for a moment, with whatever threads the invocation left behind
+        _time.sleep(float(opts["linger_s"]))
     os._exit(0)
